@@ -1540,7 +1540,7 @@ impl<'arena> PrettyFormatter<'arena> {
         }
         let rendered = scoped.render_doc(payload.document);
         if rendered.contains('\n') {
-            return prefix.append(self.embedded_block(&rendered));
+            return prefix.append(self.embedded_block(inner, &rendered));
         }
         prefix.append(scoped.fragment_boundary(
             BoundaryIntent::after_start(term, inner),
@@ -1572,26 +1572,78 @@ impl<'arena> PrettyFormatter<'arena> {
 
     /// Place a pre-rendered multiline payload below its annotation, keeping
     /// its relative indentation and its empty lines free of trailing
-    /// whitespace.
-    fn embedded_block(&self, rendered: &str) -> RcDoc<'arena> {
-        rendered.split('\n').enumerate().fold(RcDoc::nil(), |document, (index, line)| {
-            if index == 0 {
-                document.append(RcDoc::hardline()).append(RcDoc::text(line.to_owned()))
-            } else if line.is_empty() {
-                document.append(Self::empty_embedded_line())
-            } else {
-                document.append(RcDoc::hardline()).append(RcDoc::text(line.to_owned()))
-            }
+    /// whitespace. Lines that continue a `@[format(verbatim)]` copy inside the
+    /// payload keep their source indentation, as they do outside a
+    /// pre-rendered payload: they may continue a string literal.
+    ///
+    /// A hardline takes the indentation of the document that follows it, so
+    /// the block writes its lines at column zero and indents the ordinary
+    /// ones itself.
+    fn embedded_block(&self, payload: TermId, rendered: &str) -> RcDoc<'arena> {
+        let copied = self.verbatim_continuation_lines(payload, rendered);
+        let rendered = rendered.to_owned();
+        RcDoc::nesting(move |nesting| {
+            let indent = " ".repeat(nesting);
+            let lines = rendered.split('\n').enumerate().fold(
+                RcDoc::nil(),
+                |document, (index, line)| {
+                    let line = if line.is_empty() || copied.contains(&index) {
+                        line.to_owned()
+                    } else {
+                        format!("{indent}{line}")
+                    };
+                    document.append(RcDoc::hardline()).append(RcDoc::text(line))
+                },
+            );
+            lines.nest(-isize::try_from(nesting).unwrap_or(isize::MAX))
         })
     }
 
-    /// One hardline followed by an empty line, leaving the empty line free of
-    /// trailing whitespace regardless of the ambient nesting.
-    fn empty_embedded_line() -> RcDoc<'arena> {
-        RcDoc::nesting(|nesting| {
-            let nesting = isize::try_from(nesting).unwrap_or(isize::MAX);
-            RcDoc::hardline().append(RcDoc::text("").nest(-nesting))
-        })
+    /// Indices of the lines of a pre-rendered payload that continue the source
+    /// text copied by a `@[format(verbatim)]` annotation inside the payload.
+    fn verbatim_continuation_lines(&self, payload: TermId, rendered: &str) -> Vec<usize> {
+        let Some(source) = self.source else {
+            return Vec::new();
+        };
+        let (payload_start, payload_end) = self.spans[&EntityId::Term(payload)].get_cursor1();
+        let mut copies = self
+            .arena
+            .terms
+            .iter()
+            .filter_map(|(term, body)| {
+                let Term::Meta(MetaT(meta, inner)) = body else {
+                    return None;
+                };
+                let verbatim = meta.specialize::<FormatMeta>().ok().flatten();
+                let (start, _) = self.spans[&EntityId::Term(*term)].get_cursor1();
+                let (_, end) = self.spans[&EntityId::Term(*inner)].get_cursor1();
+                (verbatim.is_some_and(|directive| directive.verbatim)
+                    && payload_start <= start
+                    && end <= payload_end)
+                    .then_some(start..end)
+            })
+            .collect::<Vec<_>>();
+        copies.sort_by_key(|copy| (copy.start, std::cmp::Reverse(copy.end)));
+        let mut lines = Vec::new();
+        let mut searched = 0;
+        let mut covered = 0;
+        for copy in copies {
+            // A copy nested in an outer copy is part of the outer copy.
+            if copy.end <= covered {
+                continue;
+            }
+            covered = copy.end;
+            let Some(text) = source.get(copy) else {
+                continue;
+            };
+            let Some(found) = rendered[searched..].find(text) else {
+                continue;
+            };
+            let first = rendered[..searched + found].matches('\n').count();
+            lines.extend(first + 1..=first + text.matches('\n').count());
+            searched += found + text.len();
+        }
+        lines
     }
 
     fn application(&self, terms: &[TermId]) -> RcDoc<'arena> {
